@@ -28,6 +28,14 @@ for p in props:
     })
 fixes = []
 kf = os.path.join(ROOT, "known_findings.jsonl")
+# known_findings.jsonl is the concatenation of meta/*.known.jsonl (committed, never written at run time)
+with open(kf, "w") as out:
+    for f in sorted(os.listdir(os.path.join(ROOT, "meta"))):
+        if f.endswith(".known.jsonl"):
+            for l in open(os.path.join(ROOT, "meta", f)):
+                if l.strip():
+                    json.loads(l)
+                    out.write(l.strip() + "\n")
 if os.path.exists(kf):
     for l in open(kf):
         l = l.strip()
